@@ -31,7 +31,7 @@ def run_variant(chk, variant, n, depth, width):
             for u in sorted({-1, 0, nn - 1, nn // 2, chk.rng.randrange(nn)}):
                 ops.append(f"cbmany {sb} {nn} {u}")
     if variant.startswith("dylib"):
-        ops.append("dywho")      # two live sandboxes on two libraries exporting the same names
+        ops += ["dywho", "dymiss"]      # two live sandboxes on two libraries exporting the same names; a name only one of them exports
     ops = list(dict.fromkeys(ops))
     core.differential(chk, ops, binp, cc.oracle_c12, label=f"call trees ({variant})", impl_env=cc.env_for(variant))
     return ops
